@@ -70,3 +70,13 @@ package utils
 //@   modifies allelems(type(argsKV)), allelems(type(byte))
 //@   ensures[one-more] len(result) == len(args) + 1
 //@   ensures[definite-assign] assigned(result[len(args)].key) && assigned(result[len(args)].value)
+
+//@ func (*Args).ParseBytes
+//@   property C20
+//@   modifies a.args, allelems(type(argsKV)), allelems(type(byte))
+//@   loop 0: invariant[slot] kv != nil
+
+//@ func releaseArg
+//@   property C20
+//@   modifies nothing
+//@   ensures[drops-last] len(h) >= 1 ==> len(result) == len(h) - 1 && base(result) == base(h)
